@@ -1828,6 +1828,9 @@ theorem semRel_tag (cfg : Cfg) (o : Orc) (n : Node) :
   case kjoin a b v =>
     exact bin_of_good (.kjoin a b v) (fun t t' ht => by simp [Kind.tagBin] at ht)
       (fun t t' x y x' y' _ _ hok => by simp [Kind.tagBin] at hok)
+  case kmerge a b =>
+    exact bin_of_good (.kmerge a b) (fun t t' ht => by simp [Kind.tagBin] at ht)
+      (fun t t' x y x' y' _ _ hok => by simp [Kind.tagBin] at hok)
   case kreduce a g =>
     refine un_of_good (.kreduce a g) (fun t ht => tag_mono_simp ht) fun t x y hg hok => ?_
     have hc : t.coloc = true := by simp [Kind.tagUn] at hok; exact hok.2
@@ -2040,5 +2043,66 @@ theorem All2.flip {α β : Type} {R : α → β → Prop} {a : List α} {b : Lis
   induction h with
   | nil => exact All2.nil
   | cons hr _ ih => exact All2.cons hr ih
+
+
+/-! ### forward keyed binary operators on co-partitioned keyed streams -/
+
+theorem zipWith_map_flatten (j : List V → List V → List V) (g : V → V) (x y : D) :
+    (zipWith (fun a b => (j a b).map g) x y).flatten = (zipWith j x y).flatten.map g := by
+  induction x generalizing y with
+  | nil => simp
+  | cons a x ih =>
+    cases y with
+    | nil => simp
+    | cons b y => simp only [zipWith_cons_cons, flatten_cons, map_append]; rw [ih y]
+
+/-- `KeyedStream::join` / `join_outer` (no shuffle): if both inputs are co-located by the SAME hash
+    over equally many replicas, the union of the per-replica joins is the join of the whole streams -/
+theorem keyedJoin_copart (h : V → Nat) (v : JVar) (x y : D) (hl : x.length = y.length)
+    (hx : Coloc h x) (hy : Coloc h y) :
+    (zipWith (keyedJoinS v) x y).flatten.Perm (keyedJoinS v x.flatten y.flatten) := by
+  unfold keyedJoinS
+  rw [zipWith_map_flatten (joinS v V.fst V.fst)]
+  apply Perm.map
+  have hy' : CoPart h V.fst x.length 0 y := by rw [hl]; exact hy
+  exact join_copart h v V.fst V.fst x.length 0 x y hl hx hy'
+
+theorem invAt_zipAppend {h : V → Nat} {n off : Nat} (x y : D) (hx : InvAt h n off x) (hy : InvAt h n off y) :
+    InvAt h n off (zipAppend x y) := by
+  induction x generalizing y off with
+  | nil => simpa [zipAppend] using hy
+  | cons a x ih =>
+    cases y with
+    | nil => simpa [zipAppend] using hx
+    | cons b y =>
+      simp only [zipAppend]
+      refine InvAt.cons ?_ (ih y hx.tail hy.tail)
+      intro p hp
+      rcases mem_append.mp hp with hp | hp
+      · exact hx.head p hp
+      · exact hy.head p hp
+
+theorem length_zipAppend_eq (x y : D) (hl : x.length = y.length) : (zipAppend x y).length = x.length := by
+  induction x generalizing y with
+  | nil => cases y <;> simp_all [zipAppend]
+  | cons a x ih =>
+    cases y with
+    | nil => simp at hl
+    | cons b y => simp only [zipAppend, length_cons]; rw [ih y (by simpa using hl)]
+
+/-- `KeyedStream::merge` (no shuffle) of two streams co-located by the SAME hash over equally many
+    replicas: the union, still co-located (so a following keyed fold sees every key on one replica) -/
+theorem keyedMerge_copart (h : V → Nat) (c : Nat → Nat) (x y : D) (hl : x.length = y.length)
+    (hx : Coloc h x) (hy : Coloc h y) :
+    Coloc h ((zipAppend x y).map (permBy c)) ∧
+    ((zipAppend x y).map (permBy c)).flatten.Perm (x.flatten ++ y.flatten) := by
+  constructor
+  · apply coloc_map
+    · unfold Coloc
+      rw [length_zipAppend_eq x y hl]
+      apply invAt_zipAppend x y hx
+      unfold Coloc at hy; rw [← hl] at hy; exact hy
+    · intro l p hp; exact ⟨p, (permBy_perm c l).mem_iff.mp hp, rfl⟩
+  · exact (flatten_map_perm (permBy_perm c) _).trans (zipAppend_perm x y)
 
 end Noir.Pipe
